@@ -28,6 +28,7 @@ func init() {
 			{"C14/session-origin", "ntlmContext.session written only by negotiate, from a fresh CreateServerSession(Version2, ConnectionOriented)", c14SessionOrigin},
 			{"C14/context-scope", "contexts keyed by the request's session; removed on every path unless a challenge is outstanding; challenges issued only by negotiate", c14ContextScope},
 			{"C14/empty-args", "empty session or message refused before any context lookup", c14EmptyArgs},
+			{"C14/context-holders", "session contexts live in the context cache only: no verifier field or package variable remembers one", c14ContextHolders},
 			{"C14/database", "GetPassword is an exact map lookup by the given user name", c14Database},
 		},
 	})
